@@ -176,6 +176,25 @@ void cv_coarse_boundary_cells(CellVec *c, int res, int per) {
     }
 }
 
+/* the 20 face centres: normalised mean of each triple of mutually adjacent icosahedron vertices (res-0 pentagon centres) */
+int vt_face_centres(LatLng out[20]) {
+    H3Index p[12]; LatLng g[12]; double v[12][3]; getPentagons(0, p); int n = 0;
+    for (int i = 0; i < 12; i++) { cellToLatLng(p[i], &g[i]); v[i][0] = cos(g[i].lat) * cos(g[i].lng); v[i][1] = cos(g[i].lat) * sin(g[i].lng); v[i][2] = sin(g[i].lat); }
+    for (int i = 0; i < 12; i++) for (int j = i + 1; j < 12; j++) for (int k = j + 1; k < 12; k++) {
+        if (greatCircleDistanceRads(&g[i], &g[j]) > 1.2 || greatCircleDistanceRads(&g[i], &g[k]) > 1.2 || greatCircleDistanceRads(&g[j], &g[k]) > 1.2) continue;
+        double m[3], nn = 0; for (int q = 0; q < 3; q++) { m[q] = v[i][q] + v[j][q] + v[k][q]; nn += m[q] * m[q]; } nn = sqrt(nn);
+        if (n < 20) { out[n].lat = asin(m[2] / nn); out[n].lng = atan2(m[1], m[0]); n++; }
+    }
+    return n;
+}
+void cv_face_centre_cells(CellVec *c, int res, int ndir) {
+    static const double OFF[] = {0, 1e-9, 1e-8, 1e-7, 4e-7, 1e-6, 2e-6, 4e-6, 1e-5, 1e-4, 5e-4, 1e-3, 2e-3, 3e-3, 5e-3, 1e-2};
+    LatLng fc[20]; int nf = vt_face_centres(fc);
+    for (int f = 0; f < nf; f++) for (int o = 0; o < 16; o++) for (int d = 0; d < (o ? ndir : 1); d++) {
+        double a = vt_rand01() * 2 * M_PI; LatLng g = {fc[f].lat + OFF[o] * sin(a), fc[f].lng + OFF[o] * cos(a) / cos(fc[f].lat)};
+        H3Index h = 0; if (!latLngToCell(&g, res, &h)) cv_push(c, h);
+    }
+}
 void cv_coarse_boundary_sample(CellVec *c, int res, int n) {
     CellVec t = {0}; cv_coarse_boundary_cells(&t, res, 0);
     for (int i = 0; i < n && t.n > 0; i++) cv_push(c, t.v[vt_randn(t.n)]);
